@@ -21,6 +21,9 @@ def cases(tier, seed):
         out.append(dict(src=s, family="loop-dependent-slices"))
     for s in gen.sub_body_block_cases():
         out.append(dict(src=s, family="subroutine-body-blocks"))
+    for s in gen.repeated_call_cases():
+        if "p1(" in s or "f(q[0:2], i)" in s:      # calls that act on qubits as operands of one expression: per-bit order
+            out.append(dict(src=s, family="subroutine-results-as-operands"))
     n = 250 if tier == "quick" else 3000
     prof = dict(basis_only=True, mods=0, phase=0, custom=0, alias=3, call=3, for_=3, gates=8)
     for _ in range(n):
